@@ -220,6 +220,13 @@ def gen_block(rng, depth, maxdepth, plain=False, first_in_item=False):
                     # … a quote that holds a list and then a paragraph (the blank line after the inner list must survive)
                     inner = ("list", False, None, True, [[("para", gen_inlines(rng, plain=plain, allow_breaks=False))] for _ in range(rng.randint(1, 2))])
                     blocks.append(("quote", [inner, ("para", gen_inlines(rng, plain=plain, allow_breaks=False))]))
+        elif n_items == 1 and rng.random() < 0.3:
+            # a loose list of ONE item whose only blank lines stand directly behind an HTML block that ends at a blank line (start conditions 6 / 7):
+            # the blank line must still make the list loose
+            t = rng.choice(["div", "table", "section", "p"])
+            blocks = [("html", ["<%s>" % t, gen_words(rng), "</%s>" % t])]
+            blocks.append(rng.choice([("para", gen_inlines(rng, plain=plain, allow_breaks=False)), ("html", ["<div>", gen_words(rng), "</div>"]),
+                                      ("list", False, None, True, [[("para", gen_inlines(rng, plain=plain, allow_breaks=False))]])]))
         else:
             for _ in range(rng.randint(0, 2)):
                 push_block(rng, blocks, gen_block(rng, depth + 1, maxdepth, plain), plain)
